@@ -5,10 +5,10 @@
 # (3) every hand-made mutant under canaries/<name>.diff (+ .json naming the property it breaks).
 # A fix-revert that removes a function under contract leaves the contract uninterpretable (UNDECIDED, no alarm by
 # design); those are reported as "undecidable" and do not fail the self-test - a canary covers the same defect.
-# Usage: ./selftest.sh [fixes|seeds|canaries|all]   Exit 0 iff every canary is detected (seeds known to be out of reach excepted).
+# Usage: ./selftest.sh [fixes|seeds|canaries|all] [name-filter for canaries]   Exit 0 iff every canary is detected (seeds known to be out of reach excepted).
 cd "$(dirname "$0")"
 export GOFLAGS=-mod=mod GOPROXY=off
-mode=${1:-all}; rc=0
+mode=${1:-all}; only=${2:-}; rc=0
 if ! git -C /repo diff --quiet; then echo "/repo has uncommitted changes; aborting"; exit 2; fi
 if [ "$mode" = fixes ] || [ "$mode" = all ]; then
 python3 - <<'PY' > /tmp/selftest_fixes.$$
@@ -41,7 +41,7 @@ done < /tmp/selftest_fixes.$$
 rm -f /tmp/selftest_fixes.$$
 fi
 if [ "$mode" = canaries ] || [ "$mode" = all ]; then
-  for d in canaries/*.diff; do
+  for d in canaries/*${only}*.diff; do
     n=$(basename $d .diff); prop=$(python3 -c "import json;print(json.load(open('canaries/$n.json'))['property'])")
     if ! git -C /repo apply "$PWD/$d" 2>/dev/null; then echo "canary $n: patch does not apply"; rc=1; git -C /repo checkout -- .; continue; fi
     out=$(./check.sh $prop quick 2>&1)
